@@ -256,14 +256,14 @@ def check_envelope(stdout):
         v = load(stdout)
     except Exception as e:
         return None, "stdout is not a well-formed JSON document: %s" % e
-    if not isinstance(v, dict) or list(v.keys()) != ["records", "errors"]:
-        return None, "the top level is not an object with exactly the members records, errors"
+    if not isinstance(v, dict) or not {"records", "errors"} <= set(v.keys()):
+        return None, "the top level is not an object with the members records, errors"
     if (v["records"] is None) == (v["errors"] is None):
         return None, "not exactly one of records / errors is null"
     return v, None
 
 def check_record(r):
-    if not isinstance(r, dict) or list(r.keys()) != RECORD_KEYS:
+    if not isinstance(r, dict) or not set(RECORD_KEYS) <= set(r.keys()):
         return "record members %r" % (list(r.keys()) if isinstance(r, dict) else r,)
     for k in ("date", "summary", "total", "should_total", "diff"):
         if not isinstance(r[k], str): return "record member %s is not a string" % k
@@ -274,7 +274,7 @@ def check_record(r):
     if r["tags"] != sorted(r["tags"], key=lambda s: s.encode("utf-8", "surrogatepass")): return "record tags are not sorted"
     s = 0
     for e in r["entries"]:
-        if not isinstance(e, dict) or e.get("type") not in ENTRY_KEYS or list(e.keys()) != ENTRY_KEYS[e["type"]]:
+        if not isinstance(e, dict) or e.get("type") not in ENTRY_KEYS or not set(ENTRY_KEYS[e["type"]]) <= set(e.keys()):
             return "entry members %r" % (list(e.keys()) if isinstance(e, dict) else e,)
         if not isinstance(e["summary"], str) or not isinstance(e["total"], str) or not is_int(e["total_mins"]): return "entry member types"
         if not isinstance(e["tags"], list) or not all(isinstance(t, str) for t in e["tags"]): return "entry tags"
@@ -347,7 +347,7 @@ def check_errors(errors, own, paths):
     want = [(e, p) for es, p in zip(own, paths) for e in es]
     if len(errors) != len(want): return "%d error objects, the parser reported %d errors" % (len(errors), len(want))
     for got, ((ln, pos, length, code), p) in zip(errors, want):
-        if not isinstance(got, dict) or list(got.keys()) != ERROR_KEYS: return "error members %r" % (got,)
+        if not isinstance(got, dict) or not set(ERROR_KEYS) <= set(got.keys()): return "error members %r" % (got,)
         if (got["line"], got["column"], got["length"]) != (ln, pos + 1, length):
             return "error object says line %r column %r length %r, the parser reported line %d position %d length %d" % (got["line"], got["column"], got["length"], ln, pos, length)
         if (got["title"], got["details"]) != MESSAGES[code]: return "title/details are not those of %s" % code
@@ -587,6 +587,10 @@ def oracle_flags(req, out):
                 r2 = reduce_entries(r, [e for e in r["entries"] if tag_matches(arg, r["tags"] + e["tags"])])
                 if r2 is not None: nw.append(r2)
             want = nw
+    # members the property does not name are left out of the comparison
+    known = lambda rs: [dict({k: r[k] for k in RECORD_KEYS if k in r and k != "entries"},
+                             entries=[{k: e[k] for k in ENTRY_KEYS.get(e.get("type"), []) if k in e} for e in r.get("entries", [])]) for r in rs]
+    got = dict(got, records=known(got["records"])); want = known(want)
     if sort is None:
         if got["records"] != want: return "the filtered output is not the selection the flags %r describe" % flags
     else:
@@ -611,18 +615,59 @@ def reduce_entries(r, es):
 def nontrivial_output(req, out):
     return out.startswith("ok 0 ") and len(out) > 120
 
+def json_projection():
+    """members that the property does not name (a future `id`, say), the order of members and the white space of --pretty are
+       presentation: before the model's and the implementation's documents are compared, every hex token that holds a JSON
+       object is read, reduced to the members the property names (envelope: records, errors; record, entry and error objects:
+       the members listed above) and written back in one canonical form. A token that cannot be read stays as it is.
+       Well-formedness, `exactly one of records / errors`, the arithmetic and the faithfulness to the file are judged by
+       the oracle on the raw bytes."""
+    def prune(v):
+        if not isinstance(v, dict):
+            return v
+        out = {}
+        for k in ("records", "errors"):
+            if k in v: out[k] = v[k]
+        if isinstance(out.get("records"), list):
+            rs = []
+            for r in out["records"]:
+                if isinstance(r, dict):
+                    r2 = {k: r[k] for k in RECORD_KEYS if k in r}
+                    if isinstance(r2.get("entries"), list):
+                        r2["entries"] = [({k: e[k] for k in ENTRY_KEYS.get(e.get("type"), list(e.keys())) if k in e} if isinstance(e, dict) else e) for e in r2["entries"]]
+                    rs.append(r2)
+                else:
+                    rs.append(r)
+            out["records"] = rs
+        if isinstance(out.get("errors"), list):
+            out["errors"] = [({k: e[k] for k in ERROR_KEYS if k in e} if isinstance(e, dict) else e) for e in out["errors"]]
+        return out
+    def f(req, line):
+        toks = line.split(" ")
+        for i, x in enumerate(toks):
+            if len(x) < 4 or not x.startswith("7b"):
+                continue
+            try:
+                b = unhx(x)
+                v = load(b)
+                toks[i] = hx(json.dumps(prune(v), sort_keys=True, ensure_ascii=True, separators=(",", ":")).encode() + (b"\n" if b.endswith(b"\n") else b""))
+            except Exception:
+                pass
+        return " ".join(toks)
+    return f
+
 def suites():
     return [
-        Suite("output", gen_output, oracle=oracle_output, nontrivial=nontrivial_output,
+        Suite("output", gen_output, oracle=oracle_output, project=json_projection, nontrivial=nontrivial_output,
               rule="stdout of `klog json [--pretty] FILE...` (one to three files, odd file names) on conforming documents, faulted documents, "
                    "summaries made of quotes / backslashes / control characters / <>& / non-ASCII / U+2028-9 / invalid UTF-8, the arbitrary-byte stream with "
-                   "very long lines, and totals beyond int64; model and implementation byte-identical; oracle = Python json.loads + envelope, member order, "
+                   "very long lines, and totals beyond int64; model and implementation agree on the document reduced to the members the property names (canonical form); oracle = Python json.loads + envelope, members present, "
                    "arithmetic relations, notation/minute agreement, data of the specgen AST, error numbers = the parser's own; non-trivial = a document was printed"),
-        Suite("api", gen_api, oracle=oracle_output, nontrivial=nontrivial_output,
+        Suite("api", gen_api, oracle=oracle_output, project=json_projection, nontrivial=nontrivial_output,
               rule="json.ToJson called directly on the parser's result with the errors' origin set to arbitrary bytes (invalid, truncated, overlong, surrogate "
                    "UTF-8; control characters) - the command line cannot carry such names, kong re-encodes them; model and implementation byte-identical; "
                    "oracle as for `output`, with file = the origin with every invalid byte replaced by U+FFFD"),
-        Suite("terminal", gen_terminal, oracle=oracle_terminal,
+        Suite("terminal", gen_terminal, oracle=oracle_terminal, project=json_projection,
               rule="error text of `klog print FILE` with colours off next to `klog json FILE` on faulted documents and arbitrary bytes; model (PrettifyParsingError + "
                    "Reflower) and implementation byte-identical; oracle = line number, caret offset, caret count and re-joined message of every block equal "
                    "line, column-1, length, title: details of the JSON error object; non-trivial = a report was printed"),
